@@ -450,12 +450,16 @@ def build(hist, ctx=None):
 def read_keys(shape):
     N = len(shape)
     per_mode = []
-    for s in shape:
-        items = [0, -1, S_(None, None), S_(0, 1)]
-        if s >= 2:
-            items += [1, S_(1, None), L_(0, s - 1), L_(s - 1, 0)]
-        else:
-            items += [L_(0)]
+    for m, s in enumerate(shape):
+        if TIER == "thorough":
+            items = [0, -1, S_(None, None), S_(0, 1)]
+            if s >= 2:
+                items += [1, S_(1, None), L_(0, s - 1), L_(s - 1, 0)]
+            else:
+                items += [L_(0)]
+        else:   # quick: every key form once per mode (int, negative int, unbounded / bounded slice, index list)
+            items = [0, S_(None, None), S_(0, 1)] + ([-1] if m == 0 else [])
+            items += [L_(s - 1, 0)] if s >= 2 else [L_(0)]
         per_mode.append(items)
     return [list(k) for k in itertools.product(*per_mode)]
 
